@@ -52,7 +52,7 @@ import "github.com/acquirecloud/golibs/kvs"
 //@   ghostexit encExpiring := encExpiring + ite(r.ExpiresAt != nil, 1, 0)
 //@   ensures encHas == (r.ExpiresAt != nil) && (r.ExpiresAt != nil ==> encAt == *r.ExpiresAt)
 //@   ensures encExpiring == old(encExpiring) + ite(r.ExpiresAt != nil, 1, 0)
-//@   ensures [C03] codec: fresh(r0) && off(r0) == 0 && holdsRec(arr(r0), r.Key, r.Version, r.Value, r.ExpiresAt)
+//@   ensures codec: fresh(r0) && off(r0) == 0 && holdsRec(arr(r0), r.Key, r.Version, r.Value, r.ExpiresAt)
 // decoding: the version of the decoded record comes out of the bytes decoded: decodedFor(v, k) - "version v was decoded
 // from a value read for the redis key k" - is a relation that only proto.Unmarshal establishes (a relation, not a function
 // of v: the same version may well be read twice)
@@ -60,7 +60,7 @@ import "github.com/acquirecloud/golibs/kvs"
 //@   props C02 C03 C06 C07
 //@   maypanic
 //@   ensures decodedFor(r0.Version, readKey(arr(buf)))
-//@   ensures [C03] codec: off(buf) == 0 ==> holdsRec(arr(buf), r0.Key, r0.Version, r0.Value, r0.ExpiresAt)
+//@   ensures codec: off(buf) == 0 ==> holdsRec(arr(buf), r0.Key, r0.Version, r0.Value, r0.ExpiresAt)
 // [C03]/[C06] round trip of the codec, over the two contracts above: what was encoded for a write is what a read decodes -
 // key, version, value bytes, and the expiry as an instant
 //@ lemma func lemmaRecordRoundTrip(r *kvs.Record) kvs.Record
@@ -189,3 +189,40 @@ func lemmaRecordRoundTrip(r *kvs.Record) kvs.Record { return db2rec(rec2db(r)) }
 //@   ensures r1 != nil ==> r0 == nil && (r1 == errors.ErrNotExist || !isClass(r1))
 //@   loop 1
 //@     invariant keys == keys0 && len(result) == len(keys) && fresh(result) && len(res) == len(keys) && 0 - 1 <= rangeindex && rangeindex <= len(res) - 1 && forall(i, 0, len(res), res[i] == nil || typeIs(res[i], string)) && forall(i, 0, len(keys), result[i] != nil ==> allocated(result[i]) && result[i].Key == keys[i])
+
+// [C03] "ListKeys returns exactly the present keys matching the pattern", the client's half: ListKeys issues one SCAN from
+// cursor 0 whose MATCH is the prefixed pattern; the iterator it returns hands out, one by one and in the order the scan
+// yields them, every scanned redis key with the "/kvs/" prefix taken off (unprefixed: what key() computes) - none skipped,
+// none twice; HasNext is idempotent (a decided iterator does not touch the scan) and agrees with the following Next.
+// consumed(k): how many scan items the iterator has handed out.
+//@ spec unprefixed(rk string) string = ite(len(rk) > 5, rk[5:], "")
+//@ func key(rKey string) string
+//@   props C03
+//@   ensures r0 == unprefixed(rKey)
+//@ pred (k *keysIterator) kwf() = k != nil && (k.val != nil ==> k.si != nil && allocated(k.val) && k.si.pos > 0 && *k.val == unprefixed(scanItem(k.si, k.si.pos - 1))) && (k.si != nil ==> k.si.pos >= 0)
+//@ spec (k *keysIterator) consumed() int = ite(k.si == nil, 0, k.si.pos - ite(k.val != nil, 1, 0))
+//@ func (c *client) ListKeys(ctx context.Context, pattern string) (iterable.Iterator[string], error)
+//@   props C03
+//@   requires c != nil && c.rdb != nil
+//@   modifies nscan
+//@   ensures r1 == nil && nscan == old(nscan) + 1 && typeIs(r0, *keysIterator) && fresh(cast(*keysIterator, r0)) && cast(*keysIterator, r0).kwf()
+//@   ensures cast(*keysIterator, r0).si != nil && cast(*keysIterator, r0).val == nil && cast(*keysIterator, r0).si.pos == 0
+//@   ensures cast(*keysIterator, r0).si.smatch == rkeyOf(pattern) && cast(*keysIterator, r0).si.scursor == 0
+//@ func (k *keysIterator) HasNext() bool
+//@   props C03
+//@   requires k.kwf() && k.si != nil
+//@   modifies k.val, k.si.pos
+//@   ensures k.kwf() && k.si == old(k.si) && r0 == (k.val != nil) && k.consumed() == old(k.consumed())
+//@   ensures old(k.val) != nil ==> k.val == old(k.val) && k.si.pos == old(k.si.pos)
+//@ func (k *keysIterator) Next() (string, bool)
+//@   props C03
+//@   requires k.kwf() && k.si != nil
+//@   modifies k.val, k.si.pos
+//@   ensures k.kwf() && k.si == old(k.si) && k.val == nil
+//@   ensures r1 ==> k.consumed() == old(k.consumed()) + 1 && r0 == unprefixed(scanItem(k.si, old(k.consumed())))
+//@   ensures !r1 ==> k.consumed() == old(k.consumed()) && r0 == ""
+//@ func (k *keysIterator) Close() error
+//@   props C03
+//@   requires k != nil
+//@   modifies k.val, k.si
+//@   ensures r0 == nil && k.si == nil && k.val == nil
